@@ -75,6 +75,7 @@ CONSTANTS DW, DH,        \* die (lattice units); its origin is (0,0) as in FRAME
           CHAIN,         \* TRUE: Perturb/Wild also start from a moved (legal) configuration
           WILD,          \* TRUE: explore the multi-violation neighbours too
           FIXMODEL,      \* "intended" | "coded_float" | "coded_int"  (see SysFix)
+          ANYRATIO,      \* TRUE: hard and fixed modules may be GIVEN with rectangles beyond the ratio limit
           BASEMOD,       \* generation: neighbours of a moved base for one netlist in BASEMOD
           EMIT           \* TRUE: behaviour generation
 
@@ -346,6 +347,9 @@ TrunkSizes6 == {<<6, 6>>}
 BranchSizesL == {<<1, 1>>, <<4, 2>>}
 \* very elongated dies (tau = 0.01 * min(W, H) / n, not max): two 2x2 modules next to each other
 TrunkSizes2 == {<<2, 2>>}
+\* hard / fixed modules given beyond the ratio limit 2: a 6x2 trunk, a 3x1 branch
+TrunkSizesX == {<<6, 2>>, <<4, 4>>}
+BranchSizesX == {<<3, 1>>, <<2, 1>>}
 \* catalogues for LegalPost.tla: a trunk large enough for a branch to be fused into it, a 1x1 neighbour for the notch
 TrunkSizesP == {<<4, 5>>, <<1, 1>>}
 BranchSizesP == {<<3, 1>>, <<1, 1>>, <<1, 2>>}
@@ -358,7 +362,10 @@ SlidesA == {<<1, 0>>, <<-1, 0>>, <<0, 1>>, <<0, -1>>, <<2, 0>>, <<0, 2>>}
 (* 3. The state machine                                                    *)
 (***************************************************************************)
 Trunks == { t \in { <<x, y, x + s[1], y + s[2]>> : x \in TXS, y \in TYS, s \in TrunkSizes } :
-              t[3] <= DW /\ t[4] <= DH /\ ARLeq(RectOf(t), RP, RQ) }
+              t[3] <= DW /\ t[4] <= DH /\ (ANYRATIO \/ ARLeq(RectOf(t), RP, RQ)) }
+\* A rectangle beyond the aspect-ratio limit may only be given for a hard or fixed module (ANYRATIO): its shape cannot
+\* change, so the netlist has NO legal configuration; its own configuration violates exactly the clause `ratio`.
+RatioOK(k, t) == ARLeq(RectOf(t), RP, RQ) \/ (ANYRATIO /\ k # "soft")
 TKey(t) == t[1] * 1000 + t[2]
 \* candidate branches on side s of trunk t (strictly shorter than the side)
 BranchCands(t, s) ==
@@ -376,7 +383,7 @@ PlaceModule(k, t, sl) ==
   /\ pc = "build" /\ Len(net) < MaxMods /\ NRects(net) < MaxRects
   /\ (Len(net) > 0 => TKey(net[Len(net)].rects[1]) < TKey(t))
   /\ \A r \in AllRects(Orig(net)) : ~TOverlaps(r, t)
-  /\ (k = "soft" \/ sl = 0) /\ sl < TArea(t)
+  /\ (k = "soft" \/ sl = 0) /\ sl < TArea(t) /\ RatioOK(k, t)
   /\ net' = Append(net, [kind |-> k, area |-> TArea(t) - sl, slack |-> sl, rects |-> <<t>>, roles |-> <<"T">>])
   /\ cfg' = Orig(net')
   /\ UNCHANGED <<pc, broken>>
@@ -388,7 +395,7 @@ Attach(s, b) ==
   /\ LET M == Len(net)  md == net[M]  L == Len(md.rects) IN
        /\ L - 1 < MaxBr
        /\ b \in BranchCands(md.rects[1], s)
-       /\ InDie4(b) /\ ARLeq(RectOf(b), RP, RQ)
+       /\ InDie4(b) /\ RatioOK(md.kind, b)
        /\ (L > 1 => BKey(md.rects[L], md.roles[L]) < BKey(b, s))
        /\ \A i \in 2..L : md.roles[i] = s => Hi(md.rects[i], s) <= Lo(b, s)
        /\ \A r \in AllRects(Orig(net)) : ~TOverlaps(r, b)
@@ -491,7 +498,10 @@ Spec == Init /\ [][Next]_vars
 InvShape == Len(net) > 0 => NetOK(net) /\ CfgOK(net, cfg)
 \* PlaceModule / Attach build only legal floorplans: the input configuration of the netlist is legal,
 \* and so is every moved configuration
-InvBuiltLegal == (Len(net) > 0 /\ pc \in {"build", "moved", "emitted"}) => Legal(World, net, cfg)
+\* (with ANYRATIO: or it violates exactly `ratio`, through a hard / fixed rectangle given beyond the limit)
+InvBuiltLegal == (Len(net) > 0 /\ pc \in {"build", "moved", "emitted"}) =>
+                    \/ Legal(World, net, cfg)
+                    \/ (ANYRATIO /\ pc # "moved" /\ FalseClauses(World, net, cfg) = {"ratio"})
 \* THE PROPERTY, at design level: the equation system is met <=> the configuration is legal
 InvSystemExact == Len(net) > 0 => (AllMet(World, net, cfg) <=> Legal(World, net, cfg))
 \* finer: when a single clause is false, exactly the responsible group has an unmet equation
